@@ -1434,6 +1434,10 @@ chkpntedp(uid_t u)
 static void
 add_chkpnt(uid_t u)
 {
+	if (chkpntedp(u)) {
+		/* once is enough */
+		return;
+	}
 	if (LIKELY(ichkpnts < countof(chkpnts))) {
 		const size_t i = ichkpnts++;
 		chkpnts[i].key = u;
@@ -1602,6 +1606,22 @@ chkpnt(void)
 	ECHS_NOTI_LOG("checkpoint");
 	if (ichkpnts >= countof(chkpnts)) {
 		rc = chkpnta();
+		/* the complete dump only knows users that still have tasks,
+		 * the queue files of the others want emptying too */
+		for (size_t i = 0U; i < ichkpnts; i++) {
+			const uid_t u = chkpnts[i].key;
+			size_t j;
+
+			for (j = 0U; j < ztask_ht; j++) {
+				if (task_ht[j].oid &&
+				    echs_task_owner(task_ht[j].t->t) == u) {
+					break;
+				}
+			}
+			if (j >= ztask_ht) {
+				rc += chkpnt1(u);
+			}
+		}
 		goto fin;
 	}
 	/* otherwise just go through the list of checkpoint users */
